@@ -193,6 +193,18 @@ def loss_precision(rng, tier):
             evals += 1
             if got != want[:len(got)]:
                 fails.append(dict(clause='decisions_on_the_losses_as_given', signature=f'{name}/{form}', got=got, want=want))
+    # BATCHED losses with mixed progress: "all losses in the batch have to satisfy the condition": one element on a plateau while another still
+    # decreases by the configured amount is NOT a failed step; both on a plateau is
+    for name, hist, kw, want in (('one element plateaus, one halves', [[8.0, 2.0 ** -k] for k in range(8)], dict(steps=6, patience=2, decreasing=0.1, tol=1e-30), [True] * 5 + [False] * 3),
+                                 ('both elements plateau', [[8.0, 3.0]] * 8, dict(steps=6, patience=2, decreasing=0.1, tol=1e-30), [True, True, False] + [False] * 5)):
+        for dt_ in (torch.float64, torch.float32):
+            c = ReduceToBason(**kw); got = []
+            for l in hist:
+                if not c.continual(): got.append(False); continue
+                c.step(torch.tensor(l, dtype=dt_)); got.append(bool(c.continual()))
+            evals += 1
+            if got != want:
+                fails.append(dict(clause='batched_losses_all_elements_decide', signature=f'{name}/{str(dt_).split(".")[-1]}', got=got, want=want))
     return dict(evaluations=evals, distinct_nontrivial=evals, rule='3 loss histories x 3 forms of the loss argument', bound='histories of 6-8 losses', failures=fails[:6], samples=[])
 
 
